@@ -815,8 +815,14 @@ init_disk_set(kdump_ctx_t *ctx, unsigned fidx, off_t *pos,
 	hdr_blocks = dump32toh(ctx, *(uint32_t*)fch.data);
 	fcache_put_chunk(&fch);
 
+	act_size = hdr_blocks * sp->block_size;
+	if (act_size < sizeof *sdsh)
+		return set_error(ctx, KDUMP_ERR_CORRUPT,
+				 "Disk set header too short (need %zu, have %zu)",
+				 sizeof *sdsh, act_size);
+
 	status = fcache_get_chunk(ctx->shared->fcache, &fch,
-				  hdr_blocks * sp->block_size, fidx, *pos);
+				  act_size, fidx, *pos);
 	if (status != KDUMP_OK)
 		return set_error(ctx, status,
 				 "Cannot read disk set header (%"PRIu32" blocks) at %llu",
@@ -830,8 +836,7 @@ init_disk_set(kdump_ctx_t *ctx, unsigned fidx, off_t *pos,
 		goto out;
 	}
 
-	req_size = sizeof sdsh + disk_num * sizeof sdsh->vol_info[0];
-	act_size = hdr_blocks * sp->block_size;
+	req_size = sizeof *sdsh + disk_num * sizeof sdsh->vol_info[0];
 	if (req_size > act_size) {
 		status = set_error(ctx, KDUMP_ERR_CORRUPT,
 				   "Disk set header too short (need %zu, have %zu)",
@@ -883,7 +888,14 @@ setup_arch(kdump_ctx_t *ctx, unsigned fidx, off_t pos, off_t len,
 		return KDUMP_OK;
 	}
 
+	if (!cpus)
+		return set_error(ctx, KDUMP_ERR_CORRUPT,
+				 "Invalid number of CPUs: %" PRIu32, cpus);
+
 	status = fcache_pread(ctx->shared->fcache, &sz, sizeof sz, fidx, pos);
+	if (status != KDUMP_OK)
+		return set_error(ctx, status,
+				 "Cannot read CPU state size");
 	sz /= cpus;
 	if (sz < sizeof(struct sadump_smram_cpu_state))
 		return set_error(ctx, KDUMP_ERR_NOTIMPL,
